@@ -165,6 +165,59 @@ func checkC11(c *Ctx) {
 		r.Unk("C11.acceptline-newline", fnAcceptDisp, "-", "anchor not found")
 	}
 
+	// ---- AcceptLine lays out the real line, not the suggested one (K5)
+	r.Rule("C11.acceptline-real-line", "K5", "Display.AcceptLine computes its coordinates for the real input line (computeCoordinates(false)), so the helpers and any auto-suggestion below/after it are cleared", 1)
+	if AL := p.Func(fnAcceptDisp); AL != nil {
+		n := 0
+		for _, call := range callsTo(AL, false, "(*display.Engine).computeCoordinates") {
+			n++
+			b, ok := constBool(call.Common().Args[1])
+			r.Check(ok && !b, "C11.acceptline-real-line", fnAcceptDisp+":computeCoordinates(false)", p.IPos(call), "suggested=false", "AcceptLine computes coordinates with the auto-suggested line: with history-autosuggest on the suggestion is not erased and the cursor ends below it")
+		}
+		if n == 0 {
+			r.Bad("C11.acceptline-real-line", fnAcceptDisp+":computeCoordinates(false)", p.Pos(AL.Pos()), "AcceptLine no longer recomputes coordinates before moving below the input")
+		}
+	}
+	// ---- every Readline call starts from a clean acceptance state (K1)
+	r.Rule("C11.init-resets-acceptance", "K1", "history.Init clears accepted / acceptErr on every path (also when a held line is re-displayed), so a new Readline call cannot return at once with a stale line and without AcceptLine", 2)
+	if IN := p.Func("history.Init"); IN != nil {
+		r.Fn("history.Init")
+		for _, fld := range []string{"accepted", "acceptErr"} {
+			fld := fld
+			clears := func(in ssa.Instruction) bool {
+				chk := func(x ssa.Instruction) bool {
+					st, ok := isFieldStore(x, "history.Sources", fld)
+					if !ok {
+						return false
+					}
+					if b, isB := constBool(st.Val); isB {
+						return !b
+					}
+					return isNilConst(st.Val)
+				}
+				if chk(in) {
+					return true
+				}
+				if d, ok := in.(*ssa.Defer); ok {
+					if mc, ok := d.Call.Value.(*ssa.MakeClosure); ok {
+						found := false
+						eachInstr(mc.Fn.(*ssa.Function), func(x ssa.Instruction) {
+							if chk(x) {
+								found = true
+							}
+						})
+						return found
+					}
+				}
+				return false
+			}
+			ok, _ := mustPassBefore(IN, nil, func(in ssa.Instruction) bool { return isReturn(in) && in.Block() != IN.Recover }, clears)
+			r.Check(ok, "C11.init-resets-acceptance", "history.Init:"+fld, p.Pos(IN.Pos()), "cleared on every path", "history.Init can return without clearing Sources."+fld+": after accept-and-hold the next Readline call returns the stale line at the first key, without Display.AcceptLine")
+		}
+	} else {
+		r.Unk("C11.init-resets-acceptance", "history.Init", "-", "anchor not found")
+	}
+
 	// ---- panic exit (K1)
 	r.Rule("C11.panic-row", "K1", "on the panic exit of Readline a deferred call moves the cursor to a fresh row below the input", 1)
 	{
